@@ -41,6 +41,9 @@ type RetryParams struct {
 	// this client stack (POST for the session, then the PUT the behaviours apply to). Body
 	// "seekable" is then a ReadSeeker positioned behind a header inside a larger stream.
 	ViaRepo bool `json:"via_repo,omitempty"`
+	// SessionAuth (with ViaRepo): opening the upload session takes a Bearer token, which the client
+	// presents again on the PUT that carries the content
+	SessionAuth bool `json:"session_auth,omitempty"`
 	// Early: failing answers (4xx/5xx) are sent after the first 16 body bytes; the rest of
 	// that attempt's body is drained by the server while the client goes on
 	Early bool `json:"early,omitempty"`
@@ -67,7 +70,7 @@ func init() { register(&retryProp{}) }
 func (p *retryProp) ID() string { return "C17" }
 
 func (p *retryProp) Rule() string {
-	return "scenario = sequence of server behaviours (401 Basic/Bearer, 408, 429 with/without Retry-After, 5xx, timeout, other transport error, 404, success) x body kind (none, replayable, one-shot; 0-256 KiB) x policy parameters (MaxRetry, MinWait, MaxWait, backoff, factor, jitter incl. 0) x failures of the token endpoint (its requests pass through the same retrying transport and are judged as sends of their own) x cancellation at a simulated instant, plus direct questions to the policy for attempt numbers up to 200; pauses are measured on the simulated clock; non-trivial = at least one retry or re-send after a challenge happened, or the cancellation fell into a pause; distinct = distinct (attempt trace hash)"
+	return "scenario = sequence of server behaviours (401 Basic/Bearer, 401 refusing the token presented, 408, 429 with/without Retry-After, 5xx, timeout, other transport error, 404, success) x body kind (none, replayable, one-shot; 0-256 KiB) x policy parameters (MaxRetry, MinWait, MaxWait, backoff, factor, jitter incl. 0) x failures of the token endpoint (its requests pass through the same retrying transport and are judged as sends of their own) x cancellation at a simulated instant, plus direct questions to the policy for attempt numbers up to 200; pauses are measured on the simulated clock; non-trivial = at least one retry or re-send after a challenge happened, or the cancellation fell into a pause; distinct = distinct (attempt trace hash)"
 }
 
 func (p *retryProp) Components() map[string][]string {
@@ -88,7 +91,7 @@ func (p *retryProp) Assumptions() []string {
 func (p *retryProp) Gen(r *Rand, tier string, idx int) any {
 	rp := &RetryParams{}
 	n := r.Intn(9)
-	kinds := []string{"408", "429", "500", "503", "timeout", "timeout", "neterr", "401-basic", "401-bearer", "404", "200", "429:1", "429:2", "429:7"}
+	kinds := []string{"408", "429", "500", "503", "timeout", "timeout", "neterr", "401-basic", "401-bearer", "404", "200", "429:1", "429:2", "429:7", "408", "503", "401-bearer", "401-stale"}
 	for i := 0; i < n; i++ {
 		rp.Behaviours = append(rp.Behaviours, pick(r, kinds))
 	}
@@ -114,6 +117,12 @@ func (p *retryProp) Gen(r *Rand, tier string, idx int) any {
 	}
 	if rp.Body != "none" && rp.BodySize > 0 && r.Chance(0.25) {
 		rp.ViaRepo = true
+		if r.Chance(0.4) {
+			rp.SessionAuth = true
+			if r.Bool() {
+				rp.Behaviours = append([]string{"401-stale"}, rp.Behaviours...) // the token of the session is refused on the PUT
+			}
+		}
 		if r.Chance(0.4) {
 			rp.Body = "seekable"
 		} else if r.Chance(0.4) {
@@ -279,6 +288,11 @@ func (s *retryServer) RoundTrip(req *http.Request) (*http.Response, error) {
 	case req.Method == http.MethodPost && strings.HasSuffix(req.URL.Path, "/blobs/uploads/"):
 		// opening an upload session: not one of the attempts the behaviours script
 		rec.token = true
+		if s.rp.SessionAuth && !strings.HasPrefix(rec.authz, "Bearer retry-token-") {
+			// the session is opened with a token; the client presents the same one on the PUT
+			plan(401, http.Header{"Www-Authenticate": {`Bearer realm="https://retry.test/token",service="retry.test",scope="repository:r:pull,push"`}}, "")
+			break
+		}
 		plan(202, http.Header{"Location": {"/v2/r/blobs/uploads/session-1"}}, "")
 	case strings.HasPrefix(req.URL.Path, "/token"):
 		rec.token, rec.tokenReq = true, true
@@ -320,6 +334,9 @@ func (s *retryServer) RoundTrip(req *http.Request) (*http.Response, error) {
 			} else {
 				plan(401, http.Header{"Www-Authenticate": {`Bearer realm="https://retry.test/token",service="retry.test",scope="repository:r:pull"`}}, "")
 			}
+		case b == "401-stale":
+			// whatever token the request carries is not (or no longer) accepted
+			plan(401, http.Header{"Www-Authenticate": {`Bearer realm="https://retry.test/token",service="retry.test",scope="repository:r:pull,push"`}}, "")
 		case b == "408":
 			plan(408, nil, "")
 		case strings.HasPrefix(b, "429"):
